@@ -94,6 +94,7 @@ def generic_codec_check(pid, tier, seed, t0, runs, gate_pid=None, nontrivial=Non
     mism = compare(recs, family=family, normalise=normalise)
     for mode, nq, nt, extra, b2, f2 in (extra_runs or []):
         recs2 = run_harness(mode, seed, nq if tier == "quick" else nt, extra, binary=b2)
+        recs2 = [r for r in recs2 if pid in (r.get("oracle") or {})]   # only what concerns this property
         mism += compare(recs2, family=f2)
         recs += recs2
     oracle_fail = []
